@@ -382,7 +382,7 @@ where
                     let hi = std::cmp::min(n, lo + block);
                     for i in lo..hi {
                         let r = match util::catch(|| f(i, &mut st)) {
-                            Ok(r) => r,
+                            Ok(r) => settle(r, &mut st),
                             Err(p) => Err(Violation::new(
                                 format!("harness or library panic at enumeration index {}: {}", i, p),
                                 json!({"kind": "panic-at-index", "index": i}),
@@ -461,10 +461,10 @@ where
                     }
                     let r = if failed.get() {
                         let mut sc = scratch.borrow_mut();
-                        util::catch(|| f(&tape, &mut sc))
+                        util::catch(|| f(&tape, &mut sc)).map(|r| settle(r, &mut sc))
                     } else {
                         let mut st = stats.borrow_mut();
-                        util::catch(|| f(&tape, &mut st))
+                        util::catch(|| f(&tape, &mut st)).map(|r| settle(r, &mut st))
                     };
                     match r {
                         Ok(Ok(())) => Ok(()),
@@ -484,7 +484,7 @@ where
                     Ok(()) => None,
                     Err(TestError::Fail(_, tape)) => {
                         let mut sc = Stats::default();
-                        match util::catch(|| f(&tape, &mut sc)) {
+                        match util::catch(|| f(&tape, &mut sc)).map(|r| settle(r, &mut sc)) {
                             Ok(Err(v)) => Some(v),
                             Ok(Ok(())) => Some(Violation::new(
                                 "failure did not reproduce on the shrunk tape (flaky oracle?)",
@@ -527,6 +527,19 @@ where
 
 /// Run a check body guarding against panics of the code under test: a panic becomes a
 /// violation carrying the case.
+/// A check may decline a case whose outcome the property leaves to the implementation
+/// (`Violation::skip`): it is counted as discarded under its reason, never as a violation.
+pub fn settle(r: Check, st: &mut Stats) -> Check {
+    match r {
+        Err(v) if v.message.starts_with("SKIP:") => {
+            st.discarded += 1;
+            st.class(&v.message);
+            Ok(())
+        }
+        other => other,
+    }
+}
+
 pub fn guarded<F: FnOnce() -> Check>(case: &Value, f: F) -> Check {
     match util::catch(f) {
         Ok(r) => r,
